@@ -94,6 +94,7 @@ func verifCanary(label string, cond bool) {}
 //@   ensures [C02:inside] len(result) > 0 ==> b.err == nil && arr(result) == arr(b.buf) &&
 //@           off(result) == off(b.buf) + old(b.pos) + 4 && b.pos == old(b.pos) + 4 + len(result)
 //@   ensures [C02:error-nothing] b.err != nil ==> len(result) == 0
+//@   ensures [C01:advance] b.err == nil ==> b.pos == old(b.pos) + 4 + len(result)
 
 // The remaining scalar readers: same shape, stated once each (width k).
 //@ func (*Buffer).ReadBool
@@ -153,6 +154,7 @@ func verifCanary(label string, cond bool) {}
 //@   ensures [C02:inv] bufInv(b) && sameslice(b.buf, old(b.buf)) && b.pos >= old(b.pos)
 //@   ensures [C02:sticky] old(b.err) != nil ==> b.pos == old(b.pos) && b.err == old(b.err)
 //@   ensures [C02:inside] len(result) <= len(b.buf) - old(b.pos)
+//@   ensures [C01:advance] b.err == nil ==> b.pos == old(b.pos) + 4 + len(result)
 
 // Decoders (the BinaryDecoder interface and the reflection-driven ua.Decode) consume a prefix of
 // their input: on success the count they report lies inside the input. They write only the object
@@ -179,6 +181,11 @@ func verifCanary(label string, cond bool) {}
 //@   assigns b.pos, b.err, since(r) but Buffer
 //@   ensures [C02:inv] bufInv(b) && sameslice(b.buf, old(b.buf)) && b.pos >= old(b.pos)
 //@   ensures [C02:sticky] old(b.err) != nil ==> b.pos == old(b.pos) && b.err == old(b.err)
+
+// ReadStruct seen through its body: a caller that passes a value of a known type gets that type's own
+// Decode (used by the uasc header decoders, whose targets are hand-written BinaryDecoders).
+//@ func (*Buffer).ReadStruct@inline
+//@   inline
 
 // ---------------------------------------------------------------------------
 // C02: Variant.Decode. No panic for any input (negative array lengths, dimension products that
@@ -338,6 +345,12 @@ func verifCanary(label string, cond bool) {}
 //@   assumed
 //@   assigns nothing
 //@   ensures result == nil || fresh(result)
+
+// DecodeService: the type id, then the registered service structure (both through decoders above)
+//@ func DecodeService
+//@   props C02 C13
+//@   assigns nothing
+//@   ensures [C02:service] err == nil ==> result0 != nil && result1 != nil
 
 //@ func (*DataValue).Decode
 //@   props C02
